@@ -95,7 +95,10 @@ CLAIMS = {
              'join_is_text, multi_piece_is_text, toplevel_multi_piece_text, decodeAll_bytes_equiv / join_bytes_equiv / '
              'render_bytes_equiv (a bytes piece that decodes to s can be replaced by the text piece s at any position), '
              'utf8_bytes_equiv, latin1_bytes_equiv, join_texts, html_quote_bytes_equiv, in_body_is_text, try_join_is_text, '
-             'piece_of_bytes / piece_of_str / ustr_spec. Correspondence: results of 22 insertion forms x texts x {utf-8, '
+             'piece_of_bytes / piece_of_str / ustr_spec; render_blocks (the statements after the call of render_blocks_) and '
+             'join_unicode are translated from the source on every run (GenJoin.lean) and proved equal to joinPieces / '
+             'joinUnicode: gen_render_blocks_is_model, gen_join_unicode_is_model (with gen_join_unicode_loop_body, '
+             'gen_join_unicode_default_encoding, gen_render_blocks_is_renderJoined). Correspondence: results of 22 insertion forms x texts x {utf-8, '
              'latin-1} with the value given as bytes and as text; oracle: render(bytes) == render(text) and text result, also '
              'for cp1252 and utf-16 templates; str() table of 35 values (exceptions with 0/1/n and falsy args, objects with '
              '__str__) through 6 forms; class objects; misbehaving __str__ raises; several template objects per process (same '
@@ -103,7 +106,7 @@ CLAIMS = {
         note='Trusted: Lean kernel; interpreter model validated (not verified) against the real classes; codecs other than '
              'UTF-8 / Latin-1 and Python str()/repr() of containers are oracle-only. Partial: the full Var.render path decodes '
              'bytes as Latin-1 (known finding C19-bytes-fullpath, same defect as C03-bytes-fullpath)',
-        technique='Lean 4 proof (codec round trips from the core UTF-8 lemmas, induction over the piece list) + '
+        technique='Lean 4 proof over a model partly regenerated from the source on every run (statement-by-statement translator of render_blocks / join_unicode, equality with the hand-written model proved); Lean 4 proof (codec round trips from the core UTF-8 lemmas, induction over the piece list) + '
                   'model/implementation correspondence + bytes-vs-text oracle',
         ref='DESIGN.md §5 C19'),
     'C10': dict(
@@ -134,7 +137,7 @@ CLAIMS = {
                   'finite numeral range) + model/implementation correspondence + independent value oracle',
         ref='DESIGN.md §5 C10'),
     'C01': dict(
-        text='The HTML scanner is TRANSLATED from dtml_re_class.search on every run (harness/trans_scan.py -> GenScan.lean) and proved equal to the model for every text and offset (gen_html_scanner_candidate_is_model, gen_html_scanner_search_is_model; lemmas in Lemmas/ScanGen.lean). Lean 4 theorems, for ALL sources: (scanner) candidate_text, matchEpfs_text, scan_reconstruct, tokens_reconstruct / '
+        text='The HTML scanner is TRANSLATED from dtml_re_class.search on every run (harness/trans_scan.py -> GenScan.lean) and proved equal to the model for every text and offset (gen_html_scanner_candidate_is_model, gen_html_scanner_search_is_model; lemmas in Lemmas/ScanGen.lean). The dispatch of the main loop of render_blocks_ is translated too (harness/trans_join.py -> GenJoin.blockStepGen) and proved to do what renderBlk / renderBlocks do with a text block and a called block (gen_block_step_literal, gen_block_step_called, gen_block_step_comment, gen_block_step_bytes, gen_block_step_var, gen_block_step_if, gen_block_step_invalid_code, gen_block_loop_unfold, gen_block_loop_nil). Lean 4 theorems, for ALL sources: (scanner) candidate_text, matchEpfs_text, scan_reconstruct, tokens_reconstruct / '
              'tokens_lossless (literals and tag texts of the token stream, concatenated in order, are exactly the source), '
              'skipEol_spec (only one run of blanks/tabs ending in a newline is ever removed); (builder) nodesLits_append, '
              'soFar_pushNodes, buildAux_lits (invariant of the stack builder), compile_literals (the literal nodes of the compiled '
